@@ -48,6 +48,9 @@ fn main() {
     gen1!(out_dir, "c33_ksum", "ksum", c33::ksum, ["input"]);
     gen1!(out_dir, "c33_kfirst_map", "kfirst_map", c33::kfirst_map, ["input"]);
     gen1!(out_dir, "c33_kfirst_entries", "kfirst_entries", c33::kfirst_entries, ["input"]);
+    gen1!(out_dir, "c33_kfirst_filter", "kfirst_filter", c33::kfirst_filter, ["input"]);
+    gen1!(out_dir, "c33_kfirst_fmap", "kfirst_fmap", c33::kfirst_fmap, ["input"]);
+    gen1!(out_dir, "c33_vcount_map", "vcount_map", c33::vcount_map, ["input"]);
     gen1!(out_dir, "c31_batches", "batches", c31::batches, ["input"]);
     gen1!(out_dir, "c31_batch_snap", "batch_snap", c31::batch_snap, ["input"]);
     gen1!(out_dir, "c31_state_counter", "state_counter", c31::state_counter, ["input"]);
